@@ -109,10 +109,15 @@ def static_run(cmds, metas=None, groups=None, backend="f"):
         s.close()
 
 
-def shrink(cmds, metas, groups, prop, signature, budget=60):
+def shrink(cmds, metas, groups, prop, signature, budget=60, seconds=45):
     """greedy removal of write requests (and of queries) keeping a mismatch of the same
-    kind (same property, same side, same note) alive"""
+    kind (same property, same side, same note) alive; bounded in attempts and wall time"""
+    import time
+    deadline = time.time() + seconds
+
     def alive(cs, ms, gs):
+        if time.time() > deadline:
+            return None
         try:
             _, mm = static_run(cs, ms, gs)
         except Exception:
@@ -146,7 +151,7 @@ def shrink(cmds, metas, groups, prop, signature, budget=60):
     best = m
     # 3. remove writes one at a time, from the end
     i = len(cur) - 2
-    while i >= 1 and budget > 0:
+    while i >= 1 and budget > 0 and time.time() < deadline:
         trial = cur[:i] + cur[i + 1:]
         trialm = curm[:i] + curm[i + 1:]
         budget -= 1
@@ -172,6 +177,8 @@ def history(seed, cfg):
         s.do(1, [rng.choice([0, 0, 1]), rules])
         focus = cfg.get("focus")
         for i in range(cfg.get("nw", 25)):
+            if getattr(s, "dead", False):
+                break
             op, args = G.gen_write(rng, s.tr, cfg.get("mix", G.DEFAULT_MIX))
             s.do(op, args)
             if rng.random() < cfg.get("observe_p", 0.15):
